@@ -278,6 +278,9 @@ macro_rules! impl_bop {
                 let k = match (cond[0].b() > cond[1].b(), cond[0].d() > cond[1].d()) {
                     // Case I
                     (true, true) | (false, false) => 0.0,
+                    // A tie in belief or in disbelief: every reachable sub-case of Case II / III gives k = 0 there,
+                    // but the closed forms of II.A.2 and III.B.2 are 0/0 (and III.B.1 is not 0) and rounding can select them.
+                    _ if cond[0].b() == cond[1].b() || cond[0].d() == cond[1].d() => 0.0,
                     (bp, _) => {
                         let pyx = cond[0].b() * self.base_rate
                             + cond[1].b() * rvax
